@@ -109,6 +109,8 @@ def _handmade():
     # names that are not valid UTF-8 on disk (legacy latin-1 bytes): Python shows them with lone surrogates (surrogateescape);
     # two such names differ, sort by code point, and must survive save / load like any other name
     out.append([f("caf\udce9.txt"), f("caf\udce8.txt"), d("d\udcff", f("x\udce9")), f("cafe.txt")])
+    # hard links: several names of one file, in one folder and across folders -- every name is an entry of its own
+    out.append([f("orig.txt", 3), f("hl_copy.txt", 3), d("snap", f("hl_orig.txt", 3)), d("snap2", f("hl_orig.txt", 3))])
     out.append([])  # empty root folder
     out.append([d("only")])  # a single empty folder
     return out
@@ -163,6 +165,8 @@ def materialise(base: str, layout) -> None:
             if kind == "d":
                 os.mkdir(p)
                 rec(p, kids_)
+            elif name.startswith("hl_") and files:
+                os.link(files[0][0], p)  # a second name of the first regular file (same inode): still one directory entry = one node
             else:
                 with open(p, "wb") as fp:
                     fp.write(b"x" * size)
